@@ -19,3 +19,15 @@ func (c Libp2pCommunication) VerifStreamCount(sessionID string) int {
 	defer c.streamManager.streamLocker.Unlock()
 	return len(c.streamManager.streamsBySessionID[sessionID])
 }
+
+// VerifHoldSubscriptionLock takes the subscription manager's lock and returns the function that gives it back.
+func (c Libp2pCommunication) VerifHoldSubscriptionLock() func() {
+	c.lock.Lock()
+	return func() { c.lock.Unlock() }
+}
+
+// VerifHoldStreamLock takes the stream manager's lock and returns the function that gives it back.
+func (c Libp2pCommunication) VerifHoldStreamLock() func() {
+	c.streamManager.streamLocker.Lock()
+	return func() { c.streamManager.streamLocker.Unlock() }
+}
